@@ -29,7 +29,15 @@ EA == Id("a")   EB == Id("b")
 Exprs == {EA, Mem(Id("o"), "p"), Idx(Id("l"), Lit("0")), Idx(Id("o"), Lit("'p'")), Cond(EA, EB, Lit("'x'")),
           Bin("+", EA, Lit("1")), Un("!", EA), Un("-", EA), Bin("&&", EA, EB), Bin("||", EA, EB),
           Bin("===", EA, Lit("1")), Arr(<<Item(EA), Item(EB)>>), Obj(<<Named("p", EA)>>), Lit("'x'"), Lit("1"),
-          Call(Id("f"), <<EA>>), Mem(Mem(Id("o"), "p"), "q")}
+          Call(Id("f"), <<EA>>), Mem(Mem(Id("o"), "p"), "q"),
+          (* every dependency-carrying form applied to another one *)
+          Idx(Id("l"), EA), Idx(Id("o"), EB), Mem(Obj(<<Named("x", EA)>>), "x"),
+          Mem(Obj(<<Spread(Id("o")), Named("x", EA)>>), "p"), Idx(Arr(<<Item(EA), Item(EB)>>), Lit("1")),
+          Idx(Arr(<<Spread(Id("l")), Item(EA)>>), Lit("0")), Mem(Cond(EA, Id("o"), Obj(<<Named("p", EB)>>)), "p"),
+          Cond(Mem(Id("o"), "p"), EA, EB), Un("!", Mem(Id("o"), "p")), Bin("+", Mem(Id("o"), "p"), Idx(Id("l"), Lit("0"))),
+          Call(Id("f"), <<Mem(Id("o"), "p")>>), Obj(<<Named("k", Mem(Id("o"), "p"))>>),
+          Idx(Mem(Obj(<<Named("x", Arr(<<Item(EB)>>))>>), "x"), Lit("0")), Arr(<<Hole, Item(EA)>>),
+          Bin("??", Mem(Id("o"), "p"), EA), Bin("===", EB, Lit("'t1'"))}
 ExprsFew == {EA, Mem(Id("o"), "p"), Cond(EA, EB, Lit("'x'")), Bin("+", EA, Lit("1"))}
 
 S(s) == [t |-> "s", s |-> s]
